@@ -68,9 +68,10 @@ func (s *c13Space) valuesOf(t *mtype) []*mval {
 			out = append(out, vRange(2, 0))
 		}
 	case tAnyObj:
-		dyn := []*mval{vI(0), vS("a"), vB(true), vF(2.0)}
+		// (an option next to its own payload, `none` next to `null`: equal they are not)
+		dyn := []*mval{vI(0), vS("a"), vB(true), vF(2.0), vSome(vI(0)), vNone(), vNull()}
 		if th {
-			dyn = append(dyn, vI(1), vNone(), vL(vI(0)))
+			dyn = append(dyn, vI(1), vL(vI(0)), vSome(vS("a")))
 		}
 		out = append(out, vAO())
 		for _, x := range dyn {
@@ -1166,7 +1167,7 @@ func bindStmt(name string, v *mval, t *mtype, b *progBuilder) string {
 	return fmt.Sprintf("let %s: %s = %s;", name, t, b.expr(v, t))
 }
 
-const c13ProgMaxVals = 40
+const c13ProgMaxVals = 70
 
 type c13Pair struct{ ti, i, j int }
 
